@@ -278,8 +278,7 @@ def apply_op(rvs, op, ren, rng, info):
 
     if kind == "join":
         S = set(op["S"])
-        # (symbols instead of names only now and then: join rejects them - finding C11-F3)
-        inds = names_of(op["S"], symbols_ok=rng.random() < 0.04)
+        inds = names_of(op["S"])  # (join rejected symbols before the fix of C11-F3)
         if not isinstance(inds[0], str):
             info["inds"] = "symbols"
         pre_ids = [vid(n) for n in rvs.names]
@@ -436,10 +435,11 @@ def _pname(i, j):
     return f"OM{i + 1}" if i == j else f"OM{i + 1}{j + 1}"
 
 
-def _psd_ctx(n, variant):
+def _psd_ctx(n, variant, separate=False):
     """symbolic structure (built once per size / variant): the block under test, optionally between a
-    single eta and a valid 2x2 block whose inits must never change"""
-    key = (n, variant)
+    single eta and a valid 2x2 block whose inits must never change.  separate=True: the same variables as
+    independent univariate distributions (the covariance parameters exist but are not used yet)"""
+    key = (n, variant, separate)
     if key in _PSD_CTX:
         return _PSD_CTX[key]
     from pharmpy.basic import Expr
@@ -449,14 +449,15 @@ def _psd_ctx(n, variant):
     level = "RUV" if variant == "ruv" else "IIV"
     names = [f"ETA{i + 1}" for i in range(n)]
     if n == 1:
-        d = NormalDistribution.create(names[0], level, 0, S(_pname(0, 0)))
+        dists = [NormalDistribution.create(names[0], level, 0, S(_pname(0, 0)))]
+    elif separate:
+        dists = [NormalDistribution.create(names[i], level, 0, S(_pname(i, i))) for i in range(n)]
     else:
-        d = JointNormalDistribution.create(names, level, [0] * n, [[S(_pname(i, j)) for j in range(n)] for i in range(n)])
-    dists = [d]
+        dists = [JointNormalDistribution.create(names, level, [0] * n, [[S(_pname(i, j)) for j in range(n)] for i in range(n)])]
     if variant in ("embedded", "ucp"):
         pre = NormalDistribution.create("ETAP", "IIV", 0, S("OMP"))
         post = JointNormalDistribution.create(["ETAQ1", "ETAQ2"], "IIV" if variant == "embedded" else "RUV", [0, 0], [[S("OQ1"), S("OQ12")], [S("OQ12"), S("OQ2")]])
-        dists = [pre, d, post]
+        dists = [pre] + dists + [post]
     _PSD_CTX[key] = RandomVariables.create(dists)
     return _PSD_CTX[key]
 
@@ -502,6 +503,11 @@ def psd_case(arg):
         params = _params(n, A, variant)
         if how == "create":
             model = Model.create(name="m", parameters=params, random_variables=rvs)
+        elif how == "replace_rvs":
+            # the variables are independent first (any variances, the covariance parameters are unused), then the
+            # block structure is replaced WITHOUT passing parameters: the estimates must be validated against it
+            sep = Model.create(name="m", parameters=params, random_variables=_psd_ctx(n, variant, separate=True))
+            model = sep.replace(random_variables=rvs)
         else:
             ident = _params(n, [[1 if i == j else 0 for j in range(n)] for i in range(n)], variant)
             model = Model.create(name="m", parameters=ident, random_variables=rvs).replace(parameters=params)
@@ -783,13 +789,15 @@ def _run_psd(v, tier, rng, mats, sds):
     work = []
     for m in small + valid3:
         for variant in ("plain", "embedded", "ruv"):
-            for how in ("create", "replace"):
-                work.append((m, variant, how))
+            for how in ("create", "replace", "replace_rvs"):
+                if how != "replace_rvs" or m["n"] > 1:
+                    work.append((m, variant, how))
     for m in indef3:
-        work.append((m, rng.choice(("plain", "embedded", "ruv")), rng.choice(("create", "replace"))))
+        work.append((m, rng.choice(("plain", "embedded", "ruv")), rng.choice(("create", "replace", "replace_rvs"))))
     for n in (1, 2, 3):
         for variant in ("plain", "embedded", "ruv", "ucp"):
             _psd_ctx(n, variant)
+            _psd_ctx(n, variant, separate=True)
     _t("psd contexts built")
     results = core.pmap(psd_case, work, procs=16, chunk=128)
     _t(f"psd: {len(work)} models done")
